@@ -670,10 +670,7 @@ class Interp:
                 del sc.vars[t.id]
             elif isinstance(t, ast.Attribute):
                 o = self.eval(t.value, env, globs)
-                if isinstance(o, SObj):
-                    delattr(o, t.attr)
-                else:
-                    delattr(o, t.attr)
+                delattr(o, self.mangled(t.attr, env, globs))
             elif isinstance(t, ast.Subscript):
                 o = self.eval(t.value, env, globs)
                 idx = self.eval_index(t.slice, env, globs)
@@ -1089,7 +1086,7 @@ class Interp:
             env.vars[t.id] = v
         elif isinstance(t, ast.Attribute):
             o = self.eval(t.value, env, globs)
-            self.setattr(o, t.attr, v)
+            self.setattr(o, self.mangled(t.attr, env, globs), v)
         elif isinstance(t, (ast.Tuple, ast.List)):
             if isinstance(v, (SSeq, SList)):
                 n = len(t.elts)
@@ -1211,9 +1208,34 @@ class Interp:
             return getattr(builtins, e.id)
         raise NameError(e.id)
 
+    def mangled(self, attr, env, globs):
+        """Private name mangling: `__x` written inside a class body's functions means `_Class__x`."""
+        if not attr.startswith("__") or attr.endswith("__"):
+            return attr
+        e = env
+        func = None
+        while e is not None and func is None:
+            func = getattr(e, "func", None)
+            e = e.parent
+        if func is None:
+            return attr
+        parts = (func.qualname or "").split(".")
+        cur, cls = None, None
+        for k, part in enumerate(parts[:-1]):
+            if part == "<locals>":
+                break
+            cur = globs.get(part) if k == 0 else getattr(cur, part, None)
+            if isinstance(cur, type):
+                cls = cur
+            else:
+                break
+        if cls is None:
+            return attr
+        return "_%s%s" % (cls.__name__.lstrip("_"), attr)
+
     def e_Attribute(self, e, env, globs):
         o = self.eval(e.value, env, globs)
-        return self.getattr(o, e.attr)
+        return self.getattr(o, self.mangled(e.attr, env, globs))
 
     def getattr(self, o, name):
         if self.attr_hook is not None:
